@@ -201,6 +201,7 @@ FinishBits(e) ==
         loadedOK == /\ Len(e.loaded) = 1 /\ SameInsts(e.loaded[1], m)
                     /\ Len(e.loaded[1].header) = 1 /\ e.loaded[1].header[1].version = hdr[1].version
                     /\ e.loaded[1].header[1].bound = hdr[1].bound
+                    /\ e.loaded_b = e.loaded          \* through load_bytes just as through load_words
         wordsOK == e.words = AssembleModule(m)
         \* C06: "a bound above every id used": every result id of the finished module (ids taken from the builder)
         all == AllInsts(m)
